@@ -34,6 +34,7 @@ type solver struct {
 	nanos   int64
 	errs    int64
 	timeout int // ms per query
+	nameSeq int64
 	scope   []string // assertions made inside the innermost open (push 1) of a check
 }
 
